@@ -16,6 +16,12 @@ pub mod selftest;
 pub mod src;
 pub mod stubs;
 pub mod c05;
+pub mod c06;
+pub mod c07;
+pub mod c10;
+pub mod c12;
+pub mod c13;
+pub mod c16;
 
 use src::Src;
 
@@ -67,6 +73,40 @@ macro_rules! harnesses {
         #[kani::stub(std::env::var_os, stubs::var_os_stub)]
         #[kani::stub(core::str::slice_error_fail, stubs::slice_error_fail_stub)]
         #[kani::stub(str::to_lowercase, stubs::to_lowercase_stub)]
+        fn $name() {
+            let mut src = src::KaniSrc;
+            let $s = &mut src;
+            $body;
+        }
+    };
+    // mode hex: the HEX library entry point is replaced by the record-level reference reader
+    (@proof hex, $name:ident, $f:literal, $unwind:expr, $s:ident, $body:expr) => {
+        #[cfg(all(kani, feature = $f))]
+        #[kani::proof]
+        #[kani::unwind($unwind)]
+        #[kani::stub(alloc::fmt::format, stubs::format_stub)]
+        #[kani::stub(std::env::var_os, stubs::var_os_stub)]
+        #[kani::stub(core::str::slice_error_fail, stubs::slice_error_fail_stub)]
+        #[kani::stub(ihex::create_object_file_representation, c07::capture_stub)]
+        fn $name() {
+            let mut src = src::KaniSrc;
+            let $s = &mut src;
+            $body;
+        }
+    };
+    // mode cap: parser and the three passes replaced (C12: only build_from_parsed is the subject)
+    (@proof cap, $name:ident, $f:literal, $unwind:expr, $s:ident, $body:expr) => {
+        #[cfg(all(kani, feature = $f))]
+        #[kani::proof]
+        #[kani::unwind($unwind)]
+        #[kani::stub(alloc::fmt::format, stubs::format_stub)]
+        #[kani::stub(std::env::var_os, stubs::var_os_stub)]
+        #[kani::stub(core::str::slice_error_fail, stubs::slice_error_fail_stub)]
+        #[kani::stub(str::to_lowercase, stubs::to_lowercase_stub)]
+        #[kani::stub(avra_lib::parser::parse_str, c12::parse_str_stub)]
+        #[kani::stub(avra_lib::builder::pass0::build_pass_0, c12::pass0_stub)]
+        #[kani::stub(avra_lib::builder::pass1::build_pass_1, c12::pass1_stub)]
+        #[kani::stub(avra_lib::builder::pass2::build_pass_2, c12::pass2_stub)]
         fn $name() {
             let mut src = src::KaniSrc;
             let $s = &mut src;
@@ -392,7 +432,115 @@ harnesses! {
     c05_func_exp2 { prop: C05, feat: "c05", tier: quick, mode: full, unwind: 7, caps: "run=2,clone=1,drop=2" } => |s| c05::ev_func(s, 7, 8, 64);
     c05_func_page_log2 { prop: C05, feat: "c05", tier: quick, mode: full, unwind: 10, caps: "run=2,clone=1,drop=2" } => |s| c05::ev_func(s, 8, 10, 8);
     c05_ident { prop: C05, feat: "c05", tier: quick, mode: full, unwind: 3, caps: "run=1,clone=1,drop=1" } => |s| c05::ev_ident(s);
-    c05_leaf_equiv { prop: C05, feat: "c05", tier: quick, mode: full, unwind: 4, caps: "run=1,clone=1,drop=1" } => |s| c05::leaf_equiv(s);
     c05_nest_left { prop: C05, feat: "c05", tier: thorough, mode: full, unwind: 3, caps: "run=3,clone=1,drop=3" } => |s| c05::ev_nest(s, 0);
     c05_nest_right { prop: C05, feat: "c05", tier: thorough, mode: full, unwind: 3, caps: "run=3,clone=1,drop=3" } => |s| c05::ev_nest(s, 1);
+    // ---- C06 (+ C02-L2): data directive conversion layer
+    // ---- C07: HEX record construction
+    c07_hex_64k { prop: C07, feat: "c07", tier: thorough, mode: hex, unwind: 4200, caps: "" } => |s| c07::hex_big(s, 65520, 65560);
+    // ---- C10: symbol tables of the real CommonContext
+    c10_order { prop: C10, feat: "c10", tier: quick, mode: full, unwind: 5, caps: "clone=1,drop=1" } => |s| c10::bind_order(s);
+    c10_alias_rr { prop: C10, feat: "c10", tier: quick, mode: leaf, unwind: 5, caps: "drop=1" } => |s| c10::bind_alias(s, 0, 2, 0);
+    c10_alias_r1 { prop: C10, feat: "c10", tier: quick, mode: leaf, unwind: 5, caps: "drop=1" } => |s| c10::bind_alias(s, 22, 24, 3);
+    c10_alias_ri { prop: C10, feat: "c10", tier: quick, mode: leaf, unwind: 5, caps: "drop=1" } => |s| c10::bind_alias(s, 21, 22, 2);
+    c10_alias_rr_all { prop: C10, feat: "c10", tier: thorough, mode: leaf, unwind: 5, caps: "drop=1" } => |s| c10::bind_alias(s, 2, 12, 0);
+    c10_alias_r1_all { prop: C10, feat: "c10", tier: thorough, mode: leaf, unwind: 5, caps: "drop=1" } => |s| c10::bind_alias(s, 24, 37, 3);
+    c10_alias_ri_all { prop: C10, feat: "c10", tier: thorough, mode: leaf, unwind: 5, caps: "drop=1" } => |s| c10::bind_alias(s, 14, 21, 2);
+    // ---- C12: capacity comparisons and reported figures
+    c12_capacity { prop: C12, feat: "c12", tier: quick, mode: cap, unwind: 4, caps: "run=1,clone=1,drop=1" } => |s| c12::capacity(s);
+    // ---- C13: device gate
+    // ---- C16: directive handlers never panic; symbol evaluation terminates
+    c16_dir_byte { prop: C16, feat: "c16", tier: quick, mode: full, unwind: 4, caps: "run=1,clone=1,drop=1" } => |s| c16::dir_parse(s, 0, 1);
+    c16_dir_cseg { prop: C16, feat: "c16", tier: quick, mode: full, unwind: 4, caps: "run=1,clone=1,drop=1" } => |s| c16::dir_parse(s, 1, 2);
+    c16_dir_csegsize { prop: C16, feat: "c16", tier: quick, mode: full, unwind: 4, caps: "run=1,clone=1,drop=1" } => |s| c16::dir_parse(s, 2, 3);
+    c16_dir_db { prop: C16, feat: "c16", tier: quick, mode: full, unwind: 4, caps: "run=1,clone=1,drop=1" } => |s| c16::dir_parse(s, 3, 4);
+    c16_dir_def { prop: C16, feat: "c16", tier: quick, mode: full, unwind: 4, caps: "run=1,clone=1,drop=1" } => |s| c16::dir_parse(s, 4, 5);
+    c16_dir_device { prop: C16, feat: "c16", tier: quick, mode: full, unwind: 4, caps: "run=1,clone=1,drop=1" } => |s| c16::dir_parse(s, 5, 6);
+    c16_dir_dseg { prop: C16, feat: "c16", tier: quick, mode: full, unwind: 4, caps: "run=1,clone=1,drop=1" } => |s| c16::dir_parse(s, 6, 7);
+    c16_dir_dw { prop: C16, feat: "c16", tier: quick, mode: full, unwind: 4, caps: "run=1,clone=1,drop=1" } => |s| c16::dir_parse(s, 7, 8);
+    c16_dir_endm { prop: C16, feat: "c16", tier: quick, mode: full, unwind: 4, caps: "run=1,clone=1,drop=1" } => |s| c16::dir_parse(s, 8, 9);
+    c16_dir_endmacro { prop: C16, feat: "c16", tier: quick, mode: full, unwind: 4, caps: "run=1,clone=1,drop=1" } => |s| c16::dir_parse(s, 9, 10);
+    c16_dir_equ { prop: C16, feat: "c16", tier: quick, mode: full, unwind: 4, caps: "run=1,clone=1,drop=1" } => |s| c16::dir_parse(s, 10, 11);
+    c16_dir_eseg { prop: C16, feat: "c16", tier: quick, mode: full, unwind: 4, caps: "run=1,clone=1,drop=1" } => |s| c16::dir_parse(s, 11, 12);
+    c16_dir_exit { prop: C16, feat: "c16", tier: quick, mode: full, unwind: 4, caps: "run=1,clone=1,drop=1" } => |s| c16::dir_parse(s, 12, 13);
+    c16_dir_list { prop: C16, feat: "c16", tier: quick, mode: full, unwind: 4, caps: "run=1,clone=1,drop=1" } => |s| c16::dir_parse(s, 15, 16);
+    c16_dir_listmac { prop: C16, feat: "c16", tier: quick, mode: full, unwind: 4, caps: "run=1,clone=1,drop=1" } => |s| c16::dir_parse(s, 16, 17);
+    c16_dir_macro { prop: C16, feat: "c16", tier: quick, mode: full, unwind: 4, caps: "run=1,clone=1,drop=1" } => |s| c16::dir_parse(s, 17, 18);
+    c16_dir_nolist { prop: C16, feat: "c16", tier: quick, mode: full, unwind: 4, caps: "run=1,clone=1,drop=1" } => |s| c16::dir_parse(s, 18, 19);
+    c16_dir_org { prop: C16, feat: "c16", tier: quick, mode: full, unwind: 4, caps: "run=1,clone=1,drop=1" } => |s| c16::dir_parse(s, 19, 20);
+    c16_dir_set { prop: C16, feat: "c16", tier: quick, mode: full, unwind: 4, caps: "run=1,clone=1,drop=1" } => |s| c16::dir_parse(s, 20, 21);
+    c16_dir_define { prop: C16, feat: "c16", tier: quick, mode: full, unwind: 4, caps: "run=1,clone=1,drop=1" } => |s| c16::dir_parse(s, 21, 22);
+    c16_dir_else { prop: C16, feat: "c16", tier: quick, mode: full, unwind: 4, caps: "run=1,clone=1,drop=1" } => |s| c16::dir_parse(s, 22, 23);
+    c16_dir_elif { prop: C16, feat: "c16", tier: quick, mode: full, unwind: 4, caps: "run=1,clone=1,drop=1" } => |s| c16::dir_parse(s, 23, 24);
+    c16_dir_endif { prop: C16, feat: "c16", tier: quick, mode: full, unwind: 4, caps: "run=1,clone=1,drop=1" } => |s| c16::dir_parse(s, 24, 25);
+    c16_dir_error { prop: C16, feat: "c16", tier: quick, mode: full, unwind: 4, caps: "run=1,clone=1,drop=1" } => |s| c16::dir_parse(s, 25, 26);
+    c16_dir_if { prop: C16, feat: "c16", tier: quick, mode: full, unwind: 4, caps: "run=1,clone=1,drop=1" } => |s| c16::dir_parse(s, 26, 27);
+    c16_dir_ifdef { prop: C16, feat: "c16", tier: quick, mode: full, unwind: 4, caps: "run=1,clone=1,drop=1" } => |s| c16::dir_parse(s, 27, 28);
+    c16_dir_ifndef { prop: C16, feat: "c16", tier: quick, mode: full, unwind: 4, caps: "run=1,clone=1,drop=1" } => |s| c16::dir_parse(s, 28, 29);
+    c16_dir_message { prop: C16, feat: "c16", tier: quick, mode: full, unwind: 4, caps: "run=1,clone=1,drop=1" } => |s| c16::dir_parse(s, 29, 30);
+    c16_dir_dd { prop: C16, feat: "c16", tier: quick, mode: full, unwind: 4, caps: "run=1,clone=1,drop=1" } => |s| c16::dir_parse(s, 30, 31);
+    c16_dir_dq { prop: C16, feat: "c16", tier: quick, mode: full, unwind: 4, caps: "run=1,clone=1,drop=1" } => |s| c16::dir_parse(s, 31, 32);
+    c16_dir_undef { prop: C16, feat: "c16", tier: quick, mode: full, unwind: 4, caps: "run=1,clone=1,drop=1" } => |s| c16::dir_parse(s, 32, 33);
+    c16_dir_warning { prop: C16, feat: "c16", tier: quick, mode: full, unwind: 4, caps: "run=1,clone=1,drop=1" } => |s| c16::dir_parse(s, 33, 34);
+    c16_dir_overlap { prop: C16, feat: "c16", tier: quick, mode: full, unwind: 4, caps: "run=1,clone=1,drop=1" } => |s| c16::dir_parse(s, 34, 35);
+    c16_dir_nooverlap { prop: C16, feat: "c16", tier: quick, mode: full, unwind: 4, caps: "run=1,clone=1,drop=1" } => |s| c16::dir_parse(s, 35, 36);
+    c16_dir_pragma { prop: C16, feat: "c16", tier: quick, mode: full, unwind: 4, caps: "run=1,clone=1,drop=1" } => |s| c16::dir_parse(s, 36, 37);
+    c16_dir_custom { prop: C16, feat: "c16", tier: quick, mode: full, unwind: 4, caps: "run=1,clone=1,drop=1" } => |s| c16::dir_parse(s, 37, 38);
+    c16_equ_cycle { prop: C16, feat: "c16", tier: quick, mode: full, unwind: 4, caps: "run=3,clone=1,drop=2" } => |s| c16::equ_cycle(s);
+    c06_data1_k { prop: C06, feat: "c06", tier: quick, mode: leaf, unwind: 18, caps: "drop=1" } => |s| c06::data_w(s, 1, 0);
+    c06_data1_symb { prop: C06, feat: "c06", tier: quick, mode: leaf, unwind: 18, caps: "drop=1" } => |s| c06::data_w(s, 1, 1);
+    c06_data1_symu { prop: C06, feat: "c06", tier: quick, mode: leaf, unwind: 18, caps: "drop=1" } => |s| c06::data_w(s, 1, 2);
+    c06_data1_str0 { prop: C06, feat: "c06", tier: quick, mode: leaf, unwind: 18, caps: "drop=1" } => |s| c06::data_w(s, 1, 3);
+    c06_data1_str1 { prop: C06, feat: "c06", tier: quick, mode: leaf, unwind: 18, caps: "drop=1" } => |s| c06::data_w(s, 1, 4);
+    c06_data1_str2 { prop: C06, feat: "c06", tier: quick, mode: leaf, unwind: 18, caps: "drop=1" } => |s| c06::data_w(s, 1, 5);
+    c06_data1_utf8 { prop: C06, feat: "c06", tier: quick, mode: leaf, unwind: 18, caps: "drop=1" } => |s| c06::data_w(s, 1, 6);
+    c06_data2_k { prop: C06, feat: "c06", tier: quick, mode: leaf, unwind: 18, caps: "drop=1" } => |s| c06::data_w(s, 2, 0);
+    c06_data2_symb { prop: C06, feat: "c06", tier: quick, mode: leaf, unwind: 18, caps: "drop=1" } => |s| c06::data_w(s, 2, 1);
+    c06_data2_symu { prop: C06, feat: "c06", tier: quick, mode: leaf, unwind: 18, caps: "drop=1" } => |s| c06::data_w(s, 2, 2);
+    c06_data2_str1 { prop: C06, feat: "c06", tier: quick, mode: leaf, unwind: 18, caps: "drop=1" } => |s| c06::data_w(s, 2, 4);
+    c06_data4_k { prop: C06, feat: "c06", tier: quick, mode: leaf, unwind: 18, caps: "drop=1" } => |s| c06::data_w(s, 4, 0);
+    c06_data4_symb { prop: C06, feat: "c06", tier: quick, mode: leaf, unwind: 18, caps: "drop=1" } => |s| c06::data_w(s, 4, 1);
+    c06_data4_symu { prop: C06, feat: "c06", tier: quick, mode: leaf, unwind: 18, caps: "drop=1" } => |s| c06::data_w(s, 4, 2);
+    c06_data4_str1 { prop: C06, feat: "c06", tier: quick, mode: leaf, unwind: 18, caps: "drop=1" } => |s| c06::data_w(s, 4, 4);
+    c06_data8_k { prop: C06, feat: "c06", tier: quick, mode: leaf, unwind: 18, caps: "drop=1" } => |s| c06::data_w(s, 8, 0);
+    c06_data8_symb { prop: C06, feat: "c06", tier: quick, mode: leaf, unwind: 18, caps: "drop=1" } => |s| c06::data_w(s, 8, 1);
+    c06_data8_symu { prop: C06, feat: "c06", tier: quick, mode: leaf, unwind: 18, caps: "drop=1" } => |s| c06::data_w(s, 8, 2);
+    c06_data8_str1 { prop: C06, feat: "c06", tier: quick, mode: leaf, unwind: 18, caps: "drop=1" } => |s| c06::data_w(s, 8, 4);
+    c13_gate_0 { prop: C13, feat: "c13", tier: quick, mode: full, unwind: 5, caps: "" } => |s| c13::gate(s, 0, 16);
+    c13_gate_1 { prop: C13, feat: "c13", tier: quick, mode: full, unwind: 5, caps: "" } => |s| c13::gate(s, 16, 32);
+    c13_gate_2 { prop: C13, feat: "c13", tier: quick, mode: full, unwind: 5, caps: "" } => |s| c13::gate(s, 32, 48);
+    c13_gate_3 { prop: C13, feat: "c13", tier: quick, mode: full, unwind: 5, caps: "" } => |s| c13::gate(s, 48, 64);
+    c13_gate_4 { prop: C13, feat: "c13", tier: quick, mode: full, unwind: 5, caps: "" } => |s| c13::gate(s, 64, 78);
+    c13_gate_5 { prop: C13, feat: "c13", tier: quick, mode: full, unwind: 5, caps: "" } => |s| c13::gate(s, 78, 98);
+    c13_gate_6 { prop: C13, feat: "c13", tier: quick, mode: full, unwind: 5, caps: "" } => |s| c13::gate(s, 98, 114);
+    c10_tab_label { prop: C10, feat: "c10", tier: quick, mode: full, unwind: 5, caps: "clone=1,drop=1" } => |s| c10::bind_tables(s, 0, 2);
+    c10_tab3_label { prop: C10, feat: "c10", tier: thorough, mode: full, unwind: 6, caps: "clone=1,drop=1" } => |s| c10::bind_tables(s, 0, 3);
+    c10_tab_equ { prop: C10, feat: "c10", tier: quick, mode: full, unwind: 5, caps: "clone=1,drop=1" } => |s| c10::bind_tables(s, 1, 2);
+    c10_tab3_equ { prop: C10, feat: "c10", tier: thorough, mode: full, unwind: 6, caps: "clone=1,drop=1" } => |s| c10::bind_tables(s, 1, 3);
+    c10_tab_def { prop: C10, feat: "c10", tier: quick, mode: full, unwind: 5, caps: "clone=1,drop=1" } => |s| c10::bind_tables(s, 2, 2);
+    c10_tab3_def { prop: C10, feat: "c10", tier: thorough, mode: full, unwind: 6, caps: "clone=1,drop=1" } => |s| c10::bind_tables(s, 2, 3);
+    c10_tab_special { prop: C10, feat: "c10", tier: quick, mode: full, unwind: 5, caps: "clone=1,drop=1" } => |s| c10::bind_tables(s, 3, 2);
+    c10_tab3_special { prop: C10, feat: "c10", tier: thorough, mode: full, unwind: 6, caps: "clone=1,drop=1" } => |s| c10::bind_tables(s, 3, 3);
+    c05_leaf_const_none { prop: C05, feat: "c05", tier: quick, mode: full, unwind: 4, caps: "run=1,clone=1,drop=1" } => |s| c05::leaf_equiv(s, 0, 0);
+    c05_leaf_s_none { prop: C05, feat: "c05", tier: quick, mode: full, unwind: 4, caps: "run=1,clone=1,drop=1" } => |s| c05::leaf_equiv(s, 1, 0);
+    c05_leaf_s_define { prop: C05, feat: "c05", tier: quick, mode: full, unwind: 4, caps: "run=1,clone=1,drop=1" } => |s| c05::leaf_equiv(s, 1, 1);
+    c05_leaf_s_equ { prop: C05, feat: "c05", tier: quick, mode: full, unwind: 4, caps: "run=1,clone=1,drop=1" } => |s| c05::leaf_equiv(s, 1, 2);
+    c05_leaf_s_set { prop: C05, feat: "c05", tier: quick, mode: full, unwind: 4, caps: "run=1,clone=1,drop=1" } => |s| c05::leaf_equiv(s, 1, 3);
+    c05_leaf_s_special { prop: C05, feat: "c05", tier: quick, mode: full, unwind: 4, caps: "run=1,clone=1,drop=1" } => |s| c05::leaf_equiv(s, 1, 4);
+    c05_leaf_s_label { prop: C05, feat: "c05", tier: quick, mode: full, unwind: 4, caps: "run=1,clone=1,drop=1" } => |s| c05::leaf_equiv(s, 1, 5);
+    c05_leaf_s_pc { prop: C05, feat: "c05", tier: quick, mode: full, unwind: 4, caps: "run=1,clone=1,drop=1" } => |s| c05::leaf_equiv(s, 1, 6);
+    c05_leaf_pc_none { prop: C05, feat: "c05", tier: quick, mode: full, unwind: 4, caps: "run=1,clone=1,drop=1" } => |s| c05::leaf_equiv(s, 2, 0);
+    c05_leaf_pc_define { prop: C05, feat: "c05", tier: quick, mode: full, unwind: 4, caps: "run=1,clone=1,drop=1" } => |s| c05::leaf_equiv(s, 2, 1);
+    c05_leaf_pc_equ { prop: C05, feat: "c05", tier: quick, mode: full, unwind: 4, caps: "run=1,clone=1,drop=1" } => |s| c05::leaf_equiv(s, 2, 2);
+    c05_leaf_pc_set { prop: C05, feat: "c05", tier: quick, mode: full, unwind: 4, caps: "run=1,clone=1,drop=1" } => |s| c05::leaf_equiv(s, 2, 3);
+    c05_leaf_pc_special { prop: C05, feat: "c05", tier: quick, mode: full, unwind: 4, caps: "run=1,clone=1,drop=1" } => |s| c05::leaf_equiv(s, 2, 4);
+    c05_leaf_pc_label { prop: C05, feat: "c05", tier: quick, mode: full, unwind: 4, caps: "run=1,clone=1,drop=1" } => |s| c05::leaf_equiv(s, 2, 5);
+    c05_leaf_pc_pc { prop: C05, feat: "c05", tier: quick, mode: full, unwind: 4, caps: "run=1,clone=1,drop=1" } => |s| c05::leaf_equiv(s, 2, 6);
+    c07_hex_0_9 { prop: C07, feat: "c07", tier: quick, mode: hex, unwind: 18, caps: "" } => |s| c07::hex_small(s, 0, 9);
+    c07_hex_9_18 { prop: C07, feat: "c07", tier: quick, mode: hex, unwind: 18, caps: "" } => |s| c07::hex_small(s, 9, 18);
+    c07_hex_18_26 { prop: C07, feat: "c07", tier: quick, mode: hex, unwind: 18, caps: "" } => |s| c07::hex_small(s, 18, 26);
+    c07_hex_26_34 { prop: C07, feat: "c07", tier: quick, mode: hex, unwind: 18, caps: "" } => |s| c07::hex_small(s, 26, 34);
+    c07_hex_34_42 { prop: C07, feat: "c07", tier: thorough, mode: hex, unwind: 18, caps: "" } => |s| c07::hex_small(s, 34, 42);
+    c07_hex_42_50 { prop: C07, feat: "c07", tier: thorough, mode: hex, unwind: 18, caps: "" } => |s| c07::hex_small(s, 42, 50);
+    c07_hex_50_58 { prop: C07, feat: "c07", tier: thorough, mode: hex, unwind: 18, caps: "" } => |s| c07::hex_small(s, 50, 58);
+    c07_hex_58_65 { prop: C07, feat: "c07", tier: thorough, mode: hex, unwind: 18, caps: "" } => |s| c07::hex_small(s, 58, 65);
 }
